@@ -97,10 +97,18 @@ type State struct {
 	HavGhost bool     // ghost state was havocked (call of repository code without contract)
 	HavPrefix []string // class prefixes havocked by loops
 	Escaped   []string // repo classes whose objects were handed to code without contract
+	Held      []heldMon // monitors whose lock this thread holds
+}
+
+type heldMon struct {
+	Owner *Term
+	Type  string
+	Mu    string
+	Key   string
 }
 
 func (st *State) clone() *State {
-	n := &State{PC: st.PC, Frontier: st.Frontier, HavRepo: st.HavRepo, HavExt: st.HavExt, HavGhost: st.HavGhost, HavPrefix: append([]string{}, st.HavPrefix...), Escaped: append([]string{}, st.Escaped...)}
+	n := &State{PC: st.PC, Frontier: st.Frontier, HavRepo: st.HavRepo, HavExt: st.HavExt, HavGhost: st.HavGhost, HavPrefix: append([]string{}, st.HavPrefix...), Escaped: append([]string{}, st.Escaped...), Held: append([]heldMon{}, st.Held...)}
 	n.Frames = make([]*Frame, len(st.Frames))
 	for i, f := range st.Frames {
 		nf := *f
